@@ -1030,6 +1030,9 @@ def build_scenarios(tier, rng):
                 add("parse", "inline", [t], **rng.choice([dict(), dict(fmt="json")]))
     # format
     fsets = sets + [[lib_fixed] for lib_fixed in ["SELECT\n1", "SELECT\n1\n"]]
+    # other line-end conventions (CRLF, lone CR, mixed): what is printed, what -i writes and what --check says must agree
+    fsets += [["select a,b\r\nfrom t\r\nwhere x=1\r\n"], ["SELECT a\r\nFROM t\r\n"], ["SELECT\r\n  a\r\nFROM\r\n  t\r\n", "select 1\r\n"],
+              ["select a\rfrom t\r"], ["select a\r\nfrom t\nwhere b = 1\r\n"]]
     fflags = [dict(), dict(inplace=True), dict(check=True), dict(inplace=True, check=True), dict(output="out.sql"),
               dict(compact=True), dict(no_uppercase=True), dict(indent=4), dict(compact=True, inplace=True), dict(compact=True, check=True),
               dict(no_uppercase=True, inplace=True), dict(no_uppercase=True, check=True), dict(check=True, output="out.sql"),
